@@ -360,3 +360,114 @@ Proof.
   intros H. unfold detach_file. destruct (find_file g k) as [f0|] eqn:E0; [|reflexivity].
   rewrite (H f0 eq_refl). reflexivity.
 Qed.
+
+(* ---- rows created and deleted ---- *)
+Lemma skel_create_step g k cr det need safe stored dur res :
+  sks (create_step g k cr det need safe stored dur res) =
+    sks g ++ [mkSk k init_state need false 0 0 det cr stored stored] /\
+  g_files (create_step g k cr det need safe stored dur res) = g_files g /\
+  g_others (create_step g k cr det need safe stored dur res) = g_others g /\
+  g_deps (create_step g k cr det need safe stored dur res) = g_deps g.
+Proof. unfold create_step, sks. cbn [g_steps with_steps g_files g_others g_deps]. rewrite map_app. auto. Qed.
+
+Lemma skel_delete_step g k :
+  sks (delete_step g k) = filter (fun t => negb (q_key t =? k)) (sks g) /\
+  g_files (delete_step g k) = g_files g /\ g_others (delete_step g k) = g_others g /\
+  g_deps (delete_step g k) = g_deps g.
+Proof.
+  unfold delete_step, sks. cbn [g_steps with_steps g_files g_others g_deps]. split; [|auto].
+  induction (g_steps g) as [|s l IH]; [reflexivity|]. cbn [filter map]. destruct (s_key s =? k) eqn:E; cbn [negb].
+  - cbn [sk_step q_key]. rewrite E. cbn [negb]. exact IH.
+  - cbn [map filter sk_step q_key]. rewrite E. cbn [negb]. f_equal. exact IH.
+Qed.
+
+Lemma skel_create_file g k label st det cr :
+  sks (create_file g k label st det cr) = sks g /\
+  g_files (create_file g k label st det cr) = g_files g ++ [mkFile k label st det cr false] /\
+  g_others (create_file g k label st det cr) = g_others g /\ g_deps (create_file g k label st det cr) = g_deps g.
+Proof.
+  unfold create_file.
+  destruct (same_skel_trigger trg_file_ins k None (with_files g (g_files g ++ [mkFile k label st det cr false])))
+    as [A [B [C D]]]. rewrite A, B, C, D. auto.
+Qed.
+
+Lemma skel_delete_file g k :
+  sks (delete_file g k) = sks g /\
+  g_files (delete_file g k) = filter (fun f => negb (f_key f =? k)) (g_files g) /\
+  g_others (delete_file g k) = g_others g /\ g_deps (delete_file g k) = g_deps g.
+Proof. unfold delete_file. auto. Qed.
+
+(* ---- UPDATE node SET creator, detached on a file node ---- *)
+Lemma skel_place_file g k cr det f0 : find_file g k = Some f0 ->
+  sks (place_file g k cr det) = map (sk_set_det [k] det) (sks g) /\
+  g_files (place_file g k cr det) = map (fun f => if f_key f =? k then set_fplace f det cr else f) (g_files g) /\
+  g_others (place_file g k cr det) =
+    map (fun o => if mem_N (o_key o) [k] then set_oplace o det (o_creator o) else o) (g_others g) /\
+  g_deps (place_file g k cr det) = g_deps g.
+Proof.
+  intros E0. unfold place_file. rewrite E0.
+  destruct (skel_set_detached_nodes g [k] det) as [A [B [C D]]].
+  cbn [g_files g_others g_deps with_files]. unfold sks in *. cbn [g_steps with_files].
+  rewrite A, B, C, D. split; [reflexivity|]. split; [|auto].
+  rewrite map_map. apply map_ext. intros [b1 b2 b3 b4 b5 b6]. cbn -[mem_N]. rewrite mem_single.
+  destruct (b1 =? k) eqn:E; cbn -[mem_N]; rewrite ?E; reflexivity.
+Qed.
+
+(* ---- Step.reattach ---- *)
+Lemma skel_reattach_step g k c cdet :
+  let S := below g k in
+  sks (reattach_step g k c cdet) =
+    map (fun t => if q_key t =? k
+                  then mkSk (q_key t) (q_state t) (q_need t) (q_deferred t) (q_dc t) (q_holding t) cdet (Some c)
+                            (q_stored t) (q_hh t)
+                  else sk_set_det S cdet t) (sks g) /\
+  g_files (reattach_step g k c cdet) =
+    map (fun f => if mem_N (f_key f) (k :: S) then set_fplace f cdet (f_creator f) else f) (g_files g) /\
+  g_others (reattach_step g k c cdet) =
+    map (fun o => if mem_N (o_key o) (k :: S) then set_oplace o cdet (o_creator o) else o) (g_others g) /\
+  g_deps (reattach_step g k c cdet) = g_deps g.
+Proof.
+  intros S. unfold reattach_step.
+  set (g0 := set_detached_nodes g [k] cdet).
+  set (g1 := with_steps g0 (map (fun s => if s_key s =? k then set_place s cdet (Some c) else s) (g_steps g0))).
+  destruct (skel_set_detached_nodes g [k] cdet) as [A0 [B0 [C0 D0]]]. fold g0 in A0, B0, C0, D0.
+  assert (A1 : sks g1 = map (sk_set_cre k cdet (Some c)) (sks g0)) by apply skel_set_place.
+  assert (Hb : below g1 k = below g k).
+  { destruct (drel_set_detached k g [k] cdet) as [F1 [H1 [O1 R1]]].
+    destruct (drel_set_place k g0 cdet (Some c)) as [F2 [H2 [O2 R2]]].
+    eapply below_drel. eapply drel_trans; [exists F1, H1, O1; exact R1 | exists F2, H2, O2; exact R2]. }
+  rewrite Hb. fold S.
+  destruct (skel_set_detached_nodes g1 S cdet) as [A2 [B2 [C2 D2]]].
+  destruct (same_skel_flag_with_products (set_detached_nodes g1 S cdet) k) as [A3 [B3 [C3 D3]]].
+  rewrite A3, B3, C3, D3, A2, B2, C2, D2, A1, A0. unfold g1. cbn [g_files g_others g_deps with_steps].
+  rewrite B0, C0, D0. split; [|split; [|split; [|reflexivity]]].
+  - rewrite !map_map. apply map_ext. intros [a1 a2 a3 a4 a5 a6 a7 a8 a9 a10].
+    unfold sk_set_cre, sk_set_det. cbn -[mem_N]. rewrite ?mem_single.
+    destruct (a1 =? k) eqn:E; cbn -[mem_N]; rewrite ?E; destruct (mem_N a1 S) eqn:E2; cbn -[mem_N]; rewrite ?E, ?E2; reflexivity.
+  - rewrite map_map. apply map_ext. intros [b1 b2 b3 b4 b5 b6]. cbn -[mem_N]. rewrite ?mem_single, ?mem_cons.
+    destruct (b1 =? k) eqn:E; cbn -[mem_N]; rewrite ?E; destruct (mem_N b1 S) eqn:E2; cbn -[mem_N]; rewrite ?E, ?E2; reflexivity.
+  - rewrite map_map. apply map_ext. intros [b1 b2 b3]. cbn -[mem_N]. rewrite ?mem_single, ?mem_cons.
+    destruct (b1 =? k) eqn:E; cbn -[mem_N]; rewrite ?E; destruct (mem_N b1 S) eqn:E2; cbn -[mem_N]; rewrite ?E, ?E2; reflexivity.
+Qed.
+
+(* ---- Step.after_recycle, set_duration, set_resources ---- *)
+Lemma skel_set_step_need g k nd :
+  sks (set_step_need g k nd) =
+    map (fun t => if q_key t =? k
+                  then mkSk (q_key t) (q_state t) nd (q_deferred t) (q_dc t) 0 (q_detached t) (q_creator t) (q_stored t) (q_hh t)
+                  else t) (sks g).
+Proof.
+  unfold set_step_need. apply skel_map_steps. intros s. cbn [sk_step q_key]. destruct (s_key s =? k); reflexivity.
+Qed.
+
+Lemma same_skel_set_step_duration g k d : same_skel g (set_step_duration g k d).
+Proof.
+  unfold set_step_duration. eapply same_skel_trans; [|apply same_skel_trigger].
+  apply (same_skel_mapg (fun s => if s_key s =? k then set_dur s d else s)).
+  intros s. destruct (s_key s =? k); reflexivity.
+Qed.
+Lemma same_skel_set_step_res g k r : same_skel g (set_step_res g k r).
+Proof.
+  apply (same_skel_mapg (fun s => if s_key s =? k then set_res s r else s)).
+  intros s. destruct (s_key s =? k); reflexivity.
+Qed.
